@@ -42,5 +42,5 @@ def run(ctx):
         ctx.tlc("MC_Files", "MC_Files_refs_quick", replay="files", coverage=False)
     else:
         ctx.tlc("MC_Files", "MC_Files_thorough", replay="files", coverage=False)
-    # few spellings, lists of up to three sources and three references: repeats with another argument in between
+    # few spellings, lists of up to three sources and two references: repeats with another argument in between
     ctx.tlc("MC_Files", "MC_Files_dup3", replay="files", coverage=False)
